@@ -11,7 +11,7 @@ Local Open Scope Z_scope.
 Local Open Scope list_scope.
 
 (* Every value that the parser delivers for an integer keyword lies in the range of its C type, whatever the text
-   (negative numbers for size_t wrap modulo 2^64, values that do not fit are parse errors). *)
+   (a '-' in the value of a size_t keyword is a parse error, values that do not fit are parse errors). *)
 Theorem C10_parsed_value_in_range : forall ty t v, parse_int ty t = ZVal v -> in_range ty v = true.
 Proof. exact parse_int_in_range. Qed.
 Print Assumptions C10_parsed_value_in_range.
